@@ -13,9 +13,9 @@ structure TNode where
   deps : List String
   deriving DecidableEq, Repr, Inhabited
 
-/-- `set(x + y for x in "uir" for y in ["8", "16", "32", "64"])` -/
+/-- `known = set(BUILTIN_SIZES)` (model.py; until the repair of D78 the set also held `r8` and `r16`, which are not types) -/
 def builtins : List String :=
-  ["u8", "u16", "u32", "u64", "i8", "i16", "i32", "i64", "r8", "r16", "r32", "r64"]
+  ["i8", "i16", "i32", "i64", "u8", "u16", "u32", "u64", "r32", "r64", "byte"]
 
 /-- `find_first_dep(dependency, start_index)` relative to a suffix: index of the first node named `dep` -/
 def findIdx (dep : String) : List TNode → Option Nat
